@@ -1,10 +1,14 @@
 package checks
 
 import (
+	"crypto/sha256"
+	"encoding/json"
 	"fmt"
 	"math"
 	"os"
+	"os/exec"
 	"reflect"
+	"strings"
 	"testing"
 
 	"github.com/cloudwego/frugal"
@@ -58,7 +62,9 @@ func genC17(t *rapid.T) c17Case {
 	cfg := c04Cfg()
 	c := c17Case{TV: genTV(cfg)(t)}
 	v2 := core.GenStructVal(t, cfg, c.S)
-	c.Msg, _ = genWireMsg(t, c.S, v2, fullEdit)
+	e := fullEdit
+	e.OddBool = rapid.IntRange(0, 2).Draw(t, "oddbools") == 0
+	c.Msg, _ = genWireMsg(t, c.S, v2, e)
 	for i := 0; i < 4; i++ {
 		c.Before = append(c.Before, genLegacy(t))
 	}
@@ -151,6 +157,111 @@ func runLegacy(ops []legacyOp, b *core.Bound, src reflect.Value) *Failure {
 	return nil
 }
 
+// c17Outcome is everything the codec returns for one case, in a form that can be compared
+// between processes: it is computed once in this process (legacy calls made, environment set)
+// and once in a brand-new process that has an empty FRUGAL_* environment and never makes a
+// legacy call. "No setting changes any result" is literally outcome == outcome.
+type c17Outcome struct {
+	Size   int    `json:"size"`
+	Enc    string `json:"enc"`    // canonical (map entries sorted) encoding of the value
+	DecN   int    `json:"decn"`   // DecodeObject(msg): consumed
+	DecErr bool   `json:"decerr"` // ... failed
+	Dec    string `json:"dec"`    // ... canonical rendering of the destination
+	ReEnc  string `json:"reenc"`  // encoding of the decoded destination (keeps what Go values cannot show, e.g. the byte held by a bool)
+	Fail   string `json:"fail,omitempty"`
+}
+
+func canonOrRaw(b []byte) string {
+	if c, err := core.Canon(b); err == nil {
+		b = c
+	}
+	h := sha256.Sum256(b)
+	return fmt.Sprintf("%d:%x", len(b), h[:12])
+}
+
+func c17Codec(c c17Case) (o c17Outcome) {
+	b := core.Bind(c.S)
+	src := b.NewValue(c.V)
+	enc, f := encodeExact(src.Interface())
+	if f != nil {
+		o.Fail = "encode: " + f.Class
+		return
+	}
+	o.Size, o.Enc = len(enc), canonOrRaw(enc)
+	dest := newDest(b)
+	n, err, f := fDecode(append([]byte{}, c.Msg...), dest.Interface())
+	if f != nil {
+		o.Fail = "decode: " + f.Class
+		return
+	}
+	o.DecN, o.DecErr = n, err != nil
+	if err != nil {
+		return
+	}
+	if f := safely("reading the decoded object", func() { o.Dec = core.CanonStruct(c.S, b.Lift(dest.Elem())) }); f != nil {
+		o.Fail = "lift: " + f.Class
+		return
+	}
+	h := sha256.Sum256([]byte(o.Dec))
+	o.Dec = fmt.Sprintf("%x", h[:12])
+	re, f := encodeExact(dest.Interface())
+	if f != nil {
+		o.Fail = "re-encode: " + f.Class
+		return
+	}
+	o.ReEnc = canonOrRaw(re)
+	return
+}
+
+// controlOutcome computes the outcome of the case in a fresh control process.
+func controlOutcome(c c17Case) (c17Outcome, error) {
+	var res c17Outcome
+	cc := c17Case{TV: c.TV, Msg: c.Msg}
+	js, _ := json.Marshal(cc)
+	fl, err := os.CreateTemp("", "c17case-*.json")
+	if err != nil {
+		return res, err
+	}
+	defer os.Remove(fl.Name())
+	fl.Write(js)
+	fl.Close()
+	cmd := exec.Command(os.Args[0], "-test.run", "^TestC17Single$")
+	for _, e := range os.Environ() {
+		if strings.HasPrefix(e, "FRUGAL_") || strings.HasPrefix(e, "VERIF_OUT=") || strings.HasPrefix(e, "VERIF_FAILDIR=") ||
+			strings.HasPrefix(e, "VERIF_JOURNAL=") || strings.HasPrefix(e, "VERIF_REPLAY=") {
+			continue
+		}
+		cmd.Env = append(cmd.Env, e)
+	}
+	cmd.Env = append(cmd.Env, "VERIF_C17_SINGLE="+fl.Name(), "VERIF_C17_CONTROL=1")
+	out, err := cmd.CombinedOutput()
+	for _, line := range strings.Split(string(out), "\n") {
+		if strings.HasPrefix(line, "C17RESULT ") {
+			if jerr := json.Unmarshal([]byte(line[len("C17RESULT "):]), &res); jerr == nil {
+				return res, nil
+			}
+		}
+	}
+	return res, fmt.Errorf("control process gave no result (%v): %.600s", err, out)
+}
+
+func TestC17Single(t *testing.T) {
+	fn := os.Getenv("VERIF_C17_SINGLE")
+	if fn == "" {
+		t.Skip("helper of TestC17")
+	}
+	js, err := os.ReadFile(fn)
+	if err != nil {
+		t.Fatal(err)
+	}
+	var c c17Case
+	if err := json.Unmarshal(js, &c); err != nil {
+		t.Fatal(err)
+	}
+	b, _ := json.Marshal(c17Codec(c))
+	fmt.Println("C17RESULT " + string(b))
+}
+
 func runC17(w *worker) func(c c17Case) *Failure {
 	control := os.Getenv("VERIF_C17_CONTROL") == "1"
 	envLabel := fmt.Sprintf("env:DEPTH=%s,IL=%s", os.Getenv("FRUGAL_MAX_INLINE_DEPTH"), os.Getenv("FRUGAL_MAX_INLINE_IL_SIZE"))
@@ -204,6 +315,28 @@ func runC17(w *worker) func(c c17Case) *Failure {
 		if ok, _, _ := matchesRef(out2, c.S, c.V); !ok {
 			return failf("encoding-differs", "after legacy calls the output differs from the reference encoding")
 		}
+		// differential against a fresh process without any legacy control: every case whose message
+		// is accepted with a value Go cannot show (gray), and one in three of the others
+		if !control {
+			here := c17Codec(c)
+			hs := sha256.Sum256(append([]byte(c.S.Sig()), c.Msg...))
+			if here.Fail != "" {
+				return failf("outcome-failed", "under %s: %s", envLabel, here.Fail)
+			}
+			if hs[0]%3 == 0 || (!here.DecErr && c17HasOddBool(c.Msg)) {
+				there, err := controlOutcome(c)
+				if err != nil {
+					return failf("control-failed", "%v", err)
+				}
+				if here != there {
+					return failf("differs-from-control", "under %s with legacy calls %v the codec results differ from a fresh process without any:\n here: %+v\nthere: %+v", envLabel, c.Before, here, there)
+				}
+				w.label("compared-with-control-process")
+				if c17HasOddBool(c.Msg) && !here.DecErr {
+					w.label("compared-with-control-process:odd-bool-byte")
+				}
+			}
+		}
 		if c.Cluster != nil && !control && c13NextCluster < len(invClusters) {
 			types := invClusters[c13NextCluster]
 			for _, m := range c.TouchFirst {
@@ -249,4 +382,13 @@ func runC17(w *worker) func(c c17Case) *Failure {
 func TestC17(t *testing.T) {
 	w := newWorker(t, "C17")
 	drive(t, caseRunner[c17Case]{w: w, gen: genC17, run: runC17(w), journalled: true})
+}
+
+// c17HasOddBool: some bool on the wire holds a byte other than 0 and 1 (schema-less scan).
+func c17HasOddBool(msg []byte) bool {
+	n, _, err := core.ParseStruct(msg, 1<<20)
+	if err != nil {
+		return false
+	}
+	return n.AnyBool(func(b byte) bool { return b > 1 })
 }
